@@ -33,8 +33,8 @@ UNIVERSE = [
     ('r[1,2]', NOJSON, 'range'), ('r(1,2)', NOJSON, 'range'), ('r[1,2)', NOJSON, 'range'), ('r(1,2]', NOJSON, 'range'),
     ('r[0.5,2.5]', NOJSON, 'range'), ('r(0.0,1.5)', NOJSON, 'range'),
 ]
-QUICK = ['0', '1', '-1', '2', '1.5', '2.5', '0.0', '""', '"a"', '"ab"', '"b"', 'true', 'null', '[1, 2]',
-         '[2, 1]', '{a: 1, b: 2}', '{b: 2, a: 1}', '/^ab/', 'r[1,2)', 'r(1,2]', 'r[0.5,2.5]']
+QUICK = ['0', '1', '-1', '2', '1.5', '2.5', '0.0', '""', '"a"', '"ab"', '"b"', 'true', 'null', '[]', '[1]', '[1, 2]',
+         '[2, 1]', '{}', '{a: 1}', '{a: 1, b: 2}', '{b: 2, a: 1}', '/^ab/', 'r[1,2)', 'r(1,2]', 'r[0.5,2.5]']
 # lhs-only document values that cannot be written as Guard literals
 EXTRA_DOCS = [(-2.5, 'float'), (-9223372036854775808, 'int')]
 
@@ -267,7 +267,7 @@ def run(ctx):
     ctx.build()
     pr = ctx.proofs('C13')
     univ = UNIVERSE if ctx.tier == 'thorough' else [u for u in UNIVERSE if u[0] in QUICK]
-    texts, pvs, codes = kernel_matrix(ctx, univ)
+    texts, pvs, codes = kernel_matrix(ctx, UNIVERSE)   # the kernel matrix is always over the whole universe
     lhs, index, status = clause_matrix(ctx, univ)
     n = monitor(ctx, univ, lhs, index, status)
     ctx.coverage['distinct_nontrivial'] = len(set(codes)) and len(codes) + len(status)
